@@ -425,6 +425,58 @@ fn churn_case(case: u64, rng: &mut Rng, rep: &mut Report) {
             });
         }
     });
+    // The same churn one level down, on the lock every writer creation goes through
+    // (`Directory::acquire_lock(&INDEX_WRITER_LOCK)`): attempts are cheap here, so the window
+    // between opening / creating the lock file and locking it is hit thousands of times.
+    let lock_live = AtomicI64::new(0);
+    let lock_max_live = AtomicI64::new(0);
+    let lock_acquired = AtomicU64::new(0);
+    let lock_refused = AtomicU64::new(0);
+    let lock_threads = rng.urange(4, 24);
+    let lock_attempts = rng.urange(300, 1500);
+    let lock_seeds: Vec<u64> = (0..lock_threads).map(|_| rng.next_u64()).collect();
+    std::thread::scope(|s| {
+        for t in 0..lock_threads {
+            let (lock_live, lock_max_live, lock_acquired, lock_refused, other_errors) =
+                (&lock_live, &lock_max_live, &lock_acquired, &lock_refused, &other_errors);
+            let d = dir.box_clone();
+            let seed = lock_seeds[t];
+            s.spawn(move || {
+                let mut r = Rng::new(seed);
+                for _ in 0..lock_attempts {
+                    match d.acquire_lock(&tantivy::directory::INDEX_WRITER_LOCK) {
+                        Ok(guard) => {
+                            let now = lock_live.fetch_add(1, Ordering::SeqCst) + 1;
+                            lock_max_live.fetch_max(now, Ordering::SeqCst);
+                            lock_acquired.fetch_add(1, Ordering::Relaxed);
+                            if r.chance(1, 4) {
+                                std::thread::yield_now();
+                            }
+                            lock_live.fetch_sub(1, Ordering::SeqCst);
+                            drop(guard);
+                        }
+                        Err(tantivy::directory::error::LockError::LockBusy) => {
+                            lock_refused.fetch_add(1, Ordering::Relaxed);
+                        }
+                        Err(e) => other_errors.lock().unwrap().push(format!("acquire_lock: {e:?}")),
+                    }
+                    if r.chance(1, 8) {
+                        std::thread::yield_now();
+                    }
+                }
+            });
+        }
+    });
+    rep.count("churn_lock_acquisitions", lock_acquired.load(Ordering::Relaxed));
+    rep.count("churn_lock_refusals", lock_refused.load(Ordering::Relaxed));
+    let lml = lock_max_live.load(Ordering::SeqCst);
+    if lml > 1 {
+        rep.violation(
+            "churn:writer-lock-held-twice",
+            json!({"case": case, "dir": format!("{dk:?}"), "threads": lock_threads, "max_live": lml,
+                   "acquisitions": lock_acquired.load(Ordering::Relaxed)}),
+        );
+    }
     let ml = max_live.load(Ordering::SeqCst);
     let c = created.load(Ordering::Relaxed);
     rep.count("churn_creations", c);
